@@ -221,6 +221,9 @@ def run_check(mod, tier, seed, only_replay=None):
         r, d = replay_file(mod, only_replay)
         print(json.dumps({"status": r["status"], "detail": r.get("detail")}, indent=1, default=str)[:6000])
         if r["status"] == "violation":
+            if r.get("finding") and known_active(r["finding"]):
+                print("KNOWN-FINDING: property=%s [%s] replay=%s" % (pid, r["finding"], only_replay))
+                return 0
             print("VIOLATION property=%s replay=%s" % (pid, only_replay))
             return 1
         return 0
